@@ -57,8 +57,9 @@ class Instrument:
         self.oRules = oRules
         self.sinks = list(sinks)
         self.reach = collections.Counter()
-        self.current_rule = None  # rule whose fix/analyze is executing (outermost)
-        self.stack = []
+        self.stack = []  # (kind, rule) of the wrappers currently executing
+        self.suspended = False  # monitors that experiment on the live model switch the sinks off meanwhile
+        self.real = {}  # id(rule) -> {"fix":..., "analyze":...} the real bound methods
         self._wrap_rules()
         self._wrap_file(wrap_get)
 
@@ -73,7 +74,11 @@ class Instrument:
         real_analyze = o.analyze
         real_toi = getattr(o, "_get_tokens_of_interest", None)
 
+        inst.real[id(o)] = {"fix": real_fix, "analyze": real_analyze}
+
         def fix(oFile, dFixOnly=None):
+            if inst.suspended:
+                return real_fix(oFile, dFixOnly)
             inst.reach["fix"] += 1
             inst.stack.append(("fix", o))
             ctxs = [s.fix_before(o, oFile) for s in inst.sinks]
@@ -85,6 +90,8 @@ class Instrument:
                     s.fix_after(o, oFile, c)
 
         def analyze(oFile):
+            if inst.suspended:
+                return real_analyze(oFile)
             inst.reach["analyze"] += 1
             inst.stack.append(("analyze", o))
             ctxs = [s.analyze_before(o, oFile) for s in inst.sinks]
@@ -96,6 +103,8 @@ class Instrument:
                     s.analyze_after(o, oFile, c)
 
         def _get_tokens_of_interest(oFile, *a, **k):
+            if inst.suspended:
+                return real_toi(oFile, *a, **k)
             inst.reach["toi"] += 1
             r = real_toi(oFile, *a, **k)
             for s in inst.sinks:
@@ -105,6 +114,8 @@ class Instrument:
         real_add = o.add_violation
 
         def add_violation(violation):
+            if inst.suspended:
+                return real_add(violation)
             inst.reach["add_violation"] += 1
             n = len(o.violations)
             r = real_add(violation)
@@ -129,6 +140,8 @@ class Instrument:
         real_update = f.update
 
         def update(lUpdates, bUpdateMap):
+            if inst.suspended:
+                return real_update(lUpdates, bUpdateMap)
             inst.reach["update"] += 1
             r = inst.rule_now()
             ctxs = [s.update_before(r, f, lUpdates, bUpdateMap) for s in inst.sinks]
@@ -152,6 +165,8 @@ class Instrument:
         real = getattr(f, name)
 
         def w(*a, **k):
+            if inst.suspended:
+                return real(*a, **k)
             inst.reach[name] += 1
             if inst.stack:  # called by a rule (e.g. update_token_map inside a fix): part of that rule's event
                 return real(*a, **k)
@@ -171,6 +186,8 @@ class Instrument:
 
         def w(*a, **k):
             r = real(*a, **k)
+            if inst.suspended:
+                return r
             inst.reach["get"] += 1
             rule = inst.rule_now()
             for s in inst.sinks:
